@@ -132,7 +132,9 @@ let respond (line : String.t) : String.t =
        let exact = term_eqb (norm r) (norm b) in
        let equiv = equivb r b in
        let bound = List.for_all (fun p -> match lookup s p with Some _ -> true | None -> false) (params a) in
-       String.concat "\t" [ bool_s exact; bool_s equiv; bool_s bound; bool_s (has_comm_binary a) ])
+       (* hypotheses of the completeness theorem C09_complete at (s, a) with b = apply s a literally *)
+       let hyp = cwf s a && term_eqb r b in
+       String.concat "\t" [ bool_s exact; bool_s equiv; bool_s bound; bool_s (has_comm_binary a); bool_s hyp ])
   | [ "apply"; s; a ] ->
     (match subs_of_term (parse_term s) with
      | None -> "nosubs"
